@@ -103,6 +103,50 @@ fn library_grid(ctx: &Ctx) {
     });
 }
 
+/// scrypt is a function of its arguments only: sequences of calls in ONE thread whose inputs are related
+/// (same bytes split differently between password and salt, same inputs with other output lengths or
+/// parameters, repeated calls) must each give the RFC value, whatever was computed just before.
+fn call_sequences(ctx: &Ctx) {
+    let mut rng = Rng::fork(ctx.seed, "C18-seq");
+    let rounds = ctx.tier.pick(6, 60);
+    for round in 0..rounds {
+        let l = rng.range(0, 12);
+        let bytes = rng.bytes(l);
+        let (n, r, p) = (1u32 << rng.range(1, 5), rng.range(1, 3) as u32, rng.range(1, 2) as u32);
+        let mut calls: Vec<(Vec<u8>, Vec<u8>, u32, u32, u32, usize)> = Vec::new();
+        // every split of the same concatenation, back to back, with a non-increasing output length
+        for k in 0..=l {
+            calls.push((bytes[..k].to_vec(), bytes[k..].to_vec(), n, r, p, 32usize.saturating_sub(k).max(1)));
+        }
+        // same inputs: longer then shorter output, other parameters, and again
+        calls.push((bytes.clone(), b"salt".to_vec(), n, r, p, 64));
+        calls.push((bytes.clone(), b"salt".to_vec(), n, r, p, 16));
+        calls.push((bytes.clone(), b"salt".to_vec(), n * 2, r, p, 16));
+        calls.push((bytes.clone(), b"salt".to_vec(), n, r + 1, p, 16));
+        calls.push((bytes.clone(), b"salt".to_vec(), n, r, p + 1, 16));
+        calls.push((bytes.clone(), b"salt".to_vec(), n, r, p, 16));
+        calls.push((b"salt".to_vec(), bytes.clone(), n, r, p, 16));
+        let mut prev: Option<String> = None;
+        for (pw, salt, n, r, p, dk) in calls {
+            ctx.eval();
+            let want = match ossl::scrypt(&pw, &salt, n as u64, r as u64, p as u64, dk) {
+                Some(w) => w,
+                None => continue,
+            };
+            let desc = format!("pw={} salt={} N={} r={} p={} dkLen={}", hex(&pw), hex(&salt), n, r, p, dk);
+            match guarded(|| kestrel_crypto::scrypt(&pw, &salt, n, r, p, dk)) {
+                Ok(g) if g == want => {
+                    ctx.seen("call sequence: value independent of the previous call");
+                    ctx.distinct(&format!("seq|{}|{}", round, desc));
+                }
+                Ok(g) => ctx.violation("C18:library:value-depends-on-the-previous-call", json!({"this_call": desc, "previous_call": prev, "got": hex(&g), "want": hex(&want)})),
+                Err(pn) => ctx.violation(&format!("C18:library:panic:{}", panic_site(&pn)), json!({"this_call": desc})),
+            }
+            prev = Some(desc);
+        }
+    }
+}
+
 type ScryptFn = unsafe extern "C" fn(*const u8, usize, *const u8, usize, u32, u32, u32, *mut u8, usize);
 
 fn ffi_paths() -> (PathBuf, PathBuf) {
@@ -363,7 +407,7 @@ fn miri_lanes(ctx: &Ctx) {
 
 pub fn run(ctx: &Ctx) {
     ctx.rule(
-        "library lane: kestrel_crypto::scrypt vs OpenSSL EVP_PBE_scrypt on a covering grid (every (N,r) pair within 64 MiB, every (r,p), (N,p) within budget, every \
+        "library lane: single-threaded sequences of related calls (same bytes split differently between password and salt, other lengths/parameters, repeats) each compared with OpenSSL; kestrel_crypto::scrypt vs OpenSSL EVP_PBE_scrypt on a covering grid (every (N,r) pair within 64 MiB, every (r,p), (N,p) within budget, every \
          dkLen 1..200, password/salt lengths {0,1,63,64,65,200} and random); C ABI lanes: dlopen'ed cdylib with 64-byte canaries around output and input buffers; C \
          driver with exact-size heap buffers under valgrind memcheck and AddressSanitizer; the extern \"C\" wrapper under Miri with exact-size allocations, with \
          dangling-non-null and with NULL pointers for zero-length inputs; the NULL variant also against a debug-assertions build. distinct_nontrivial counts distinct \
@@ -371,11 +415,13 @@ pub fn run(ctx: &Ctx) {
     );
     ctx.assume("OpenSSL EVP_PBE_scrypt is RFC 7914 (self-tested on the RFC vectors)");
     ctx.assume("memory limit: tuples with 128*N*r > 64 MiB are not driven");
+    call_sequences(ctx);
     library_grid(ctx);
     ffi_canaries(ctx);
     driver_lanes(ctx);
     miri_lanes(ctx);
     ctx.require("library scrypt == OpenSSL", 300);
+    ctx.require("call sequence: value independent of the previous call", 50);
     ctx.require("C ABI (dlopen, canaries)", 100);
     ctx.require("valgrind-memcheck: cases clean", 20);
 }
